@@ -452,6 +452,10 @@ func main() {
 	}
 	add("kernel", "kernel", kp, "fastgo", nil, true)
 	add("kernel", "kernel", kp, "fastgo", []string{"keep_unknown_fields"}, true)
+	// the fastgo backend under the options that change how values are represented
+	for _, o := range [][]string{{"value_type_in_container"}, {"use_type_alias=false"}, {"enum_as_int_32"}, {"naming_style=apache"}, {"gen_deep_equal"}, {"with_reflection"}, {"nil_safe"}, {"no_default_serdes"}, {"reorder_fields"}} {
+		add("kernel", "kernel", kp, "fastgo", o, true)
+	}
 	add("kernel", "kernel", kp, "go", nil, false)
 	if !thorough {
 		add("kernel-wide", "kernel-wide", kpWide, "go", nil, true)
